@@ -70,7 +70,7 @@ SPEC = dict(
     imports="From Ship Require Import Base HubConv.\nOpen Scope N_scope.",
     case_type="c05_case", check_fn="check_c05",
     drivers=[dict(bin="hubunit", args=["-prop", "C05"], n_quick=2000, n_thorough=40000),
-             dict(bin="hubdrv", args=["-prop", "C05"], n_quick=52, n_thorough=400, timeout=1200)],
+             dict(bin="hubdrv", args=["-prop", "C05"], n_quick=68, n_thorough=400, timeout=1200)],
     codes={10: "both_simultaneous_connections_registered", 11: "zero_connections_nothing_pending",
            12: "closed_connection_registered", 13: "two_completed_connections",
            14: "unregistered_extra_connection", 15: "different_objects_kept",
